@@ -119,6 +119,42 @@ def run(ctx):
         sq = O.from_gp(sq.g, sq.p)
         if any(c != 'I' for c in sq[0]) or sq[1] != (2 * got[1]) % 4:
             ctx.fail('Pauli.__matmul__', 'square is not i^(2p) identity', dict(op=got, square=sq))
+    # ---- histories: operands that have been multiplied before and changed in place since (caches, aliasing)
+    import hutil as H
+    for _ in range(ctx.budget(120, 1500)):
+        n = rng.choice([1, 2, 3, 4, 6])
+        vals = [G.rand_op(rng, n) for _ in range(rng.randrange(2, 5))]
+        objs = [impl.pauli(v) for v in vals]
+        hist = []
+        for step in range(rng.randrange(3, 12)):
+            c = rng.random()
+            if c < 0.5:
+                i, j = rng.randrange(len(objs)), rng.randrange(len(objs))
+                hist.append(('mul', i, j))
+                try:
+                    pr = objs[i] @ objs[j]
+                    got = O.from_gp(pr.g, pr.p)
+                except Exception as e:
+                    ctx.fail('Pauli.__matmul__', 'implementation raised %r in a history' % e, dict(start=vals, history=hist)); break
+                want = O.omul(vals[i], vals[j])
+                if got != want:
+                    ctx.fail('Pauli.__matmul__', 'product of operands with a history (earlier products, in-place rotations/transformations) differs from the matrix product',
+                             dict(start=vals, history=hist, a=vals[i], b=vals[j], got=got, want=want)); break
+                if rng.random() < 0.3 and len(objs) < 7:
+                    objs.append(pr); vals.append(want)
+            elif c < 0.8:
+                i = rng.randrange(len(objs))
+                Gop = G.rand_herm(rng, n, nonid=True)
+                hist.append(('rotate_by', i, Gop))
+                objs[i].rotate_by(impl.pauli(Gop))
+                vals[i] = G.rotate_op(Gop, vals[i])
+            else:
+                i = rng.randrange(len(objs))
+                M = G.rand_map_ops(rng, n)
+                hist.append(('transform_by', i, M))
+                objs[i].transform_by(impl.cmap(M))
+                vals[i] = H.map_apply(M, vals[i])
+        ctx.case(('history', tuple(vals), str(hist)), True, sample=dict(op='history', N=n, steps=[h[0] for h in hist]))
     # ---- polynomial products (batch_dot through PauliPolynomial.__matmul__)
     for _ in range(ctx.budget(60, 600)):
         n = rng.choice([1, 2, 3, 5])
